@@ -131,7 +131,10 @@ def doRun (ws : List String) : Option String := do
     match fs with
     | [] => (acc.reverse, exitSt, abort, crashed)
     | f :: rest =>
-      if abort || crashed then go rest k exitSt abort crashed acc
+      if abort || crashed then
+        -- main.c stops at `user_abort`; a dead process starts nothing: the pair is untouched
+        let s0 : St Unit := { pc := .done, fs := { dstName := if f.dstExists then some inoPre else none } }
+        go rest k exitSt abort crashed (("#" ++ renderFs s0) :: acc)
       else
         let c : Cfg Unit := { o, srcSize := f.size, srcSkip := f.skip, gidDiffers := f.gid, outRegular := f.outreg,
                               ops := f.ops, fin := f.fin, fault, signalAt := sig, moveAt := move, zero := () }
